@@ -321,7 +321,7 @@ Proof. exact groups_are_constructed_a. Qed.
 Print Assumptions C11_returned_altitudekey_objects_are_constructor_results.
 
 (* ---- statements on the regenerated constants (an edit of the bounds of transform.quadkeyCheckZoom or of consts.InnerID*Index in /repo breaks
-   GenEqCheck.gen_QuadkeyZoom_eq / GenEqConst.gen_InnerID_eq, on which these depend) ---- *)
+   GenEqCheck.gen_QuadkeyZoom_eq / GenEqConstQuadkey.gen_InnerID_eq, on which these depend) ---- *)
 Theorem C11_zoom_window_is_the_generated_bounds : forall h v,
   qcheck h v = (Generated.QuadkeyZoom_hZoom_min <=? h) && (h <=? Generated.QuadkeyZoom_hZoom_max) &&
                (Generated.QuadkeyZoom_vZoom_min <=? v) && (v <=? Generated.QuadkeyZoom_vZoom_max).
